@@ -171,6 +171,26 @@ def mir_writer_table(P):
             v = _str_const(b, c['args'][1])
             if pre is None and v is not None:
                 pre = (pre or set()) | {_unq(v)}
+    if pre is None:
+        # `input.bytes().any(|b| matches!(b, b'&' | b'<' | b'>'))` / `chars().any(|c| ..)`: the values the predicate switches on
+        P_ = getattr(b, 'program', None)
+        for pos, c in b.iter_calls():
+            if call_matches(c, r'Iterator>?::any$') and len(c['args']) > 1 and P_ is not None:
+                for org in origins(b, c['args'][1]):
+                    if org[0] not in ('param', 'const', 'place') and org[1].get('k') == 'assign' and org[1]['rv']['k'] == 'agg' and org[1]['rv'].get('ak') == 'closure':
+                        cb = P_.bodies.get(org[1]['rv'].get('fn'))
+                        vals = set()
+                        for q, t in (cb.iter_terms() if cb is not None else []):
+                            if t['k'] == 'switch' and t.get('ty') in ('u8', 'char'):
+                                vals |= {chr(int(v)) for v, tb in t['ts']}
+                        for q, st in (cb.iter_stmts() if cb is not None else []):
+                            if st['k'] == 'assign' and st['rv']['k'] == 'bin' and st['rv']['op'] == 'Eq':
+                                for o in (st['rv']['a'], st['rv']['b']):
+                                    if not is_local_op(o) and o.get('c') in ('u8', 'char'):
+                                        vals.add(chr(int(o['i'])))
+                        if vals:
+                            pre = vals
+        # a chain of `input.contains('<') || input.contains('&')`
     return W, ident, pre, '%s:%d' % (b.file, b.line)
 
 
